@@ -42,6 +42,13 @@ Theorem C01_oracle_correct : forall (n h : nat) (P : list Oracle.srule) (t : N),
 Proof. exact tsm_enum_correct. Qed.
 Theorem C01_oracle_no_duplicates : forall (n h : nat) (P : list Oracle.srule), NoDup (Oracle.tsm_enum n h P).
 Proof. exact tsm_enum_nodup. Qed.
+(* the final part is the always part guarded by &final: a rule of `#program final.` and the same rule in `#program always.` with &final added to its body
+   have, in any program and at every horizon, the same temporal stable models (the pipeline is compared on this law for every kind of statement with a body) *)
+Require Import FinalPart.
+Theorem C01_final_part_is_the_always_part_with_final : forall (A : Type) (h : nat) (P : list (srule A)) (r : srule A), sp A r = Final ->
+  forall T : trace A, tsm A h (r :: P) T <-> tsm A h (as_always A r :: P) T.
+Proof. exact final_part_same_stable_models. Qed.
+Print Assumptions C01_final_part_is_the_always_part_with_final.
 Print Assumptions C01_core_exact.
 Print Assumptions C01_instance_meaning.
 Print Assumptions C01_part_selection_tied.
